@@ -14,7 +14,8 @@ from concurrent.futures import ThreadPoolExecutor
 HERE = os.path.dirname(os.path.abspath(__file__))
 VERIF = os.environ.get("VERIF_DIR", os.path.dirname(HERE))
 BIN = os.path.join(VERIF, "harness", "target-loom", "release", "loommc")
-PACK = f"/dev/shm/jbkmc-loompack-{os.getpid()}.jbkc"
+SCRATCH = os.environ.get("JBKMC_SCRATCH_ROOT") or "/dev/shm"
+PACK = f"{SCRATCH}/jbkmc-loompack-{os.getpid()}.jbkc"
 
 
 def run(cfg, timeout):
@@ -127,7 +128,7 @@ def main():
     # distinct file names for concurrent `file` runs
     for k, j in enumerate(jobs):
         if j[0] == "file":
-            j[j.index("--file") + 1] = f"/dev/shm/jbkmc-loomfile-{os.getpid()}-{k}.bin"
+            j[j.index("--file") + 1] = f"{SCRATCH}/jbkmc-loomfile-{os.getpid()}-{k}.bin"
     with ThreadPoolExecutor(max_workers=ncpu) as ex:
         results = list(ex.map(lambda c: run(c, cap_s), jobs))
     violations = {}
@@ -138,7 +139,7 @@ def main():
     interior = 0
     by_cfg = {}
     for r in results:
-        name = " ".join(x for x in r["cfg"] if not x.startswith("/dev/shm"))
+        name = " ".join(x for x in r["cfg"] if not x.startswith(SCRATCH))
         
         if r.get("cap"):
             caps.append(f"{name}: not finished within {cap_s}s")
@@ -165,7 +166,7 @@ def main():
         executions += r["executions"]
         configs += r["configs"]
         interior += r.get("interior_boundary_waits", 0)
-        key = " ".join(x for x in r["cfg"][: r["cfg"].index("--bound")] if not x.startswith("/dev/shm"))
+        key = " ".join(x for x in r["cfg"][: r["cfg"].index("--bound")] if not x.startswith(SCRATCH))
         b = by_cfg.setdefault(key, {"executions": 0, "bounds": set()})
         b["executions"] += r["executions"]
         b["bounds"].add(r["cfg"][r["cfg"].index("--bound") + 1])
